@@ -200,6 +200,7 @@ func (c *Ctx) oblige(kind string, pc, goal *Term, pos token.Position, detail str
 		return nil
 	}
 	goal = c.skolemize(goal)
+	c.groundLEFacts(goal, map[*Term]bool{})
 	if goal.isTrue() || pc.isFalse() {
 		// trivially discharged: still count it, with result recorded at once
 		c.counters[kind]++
@@ -214,6 +215,34 @@ func (c *Ctx) oblige(kind string, pc, goal *Term, pos token.Position, detail str
 		ctx: c, results: c.curResults}
 	c.obls = append(c.obls, o)
 	return o
+}
+
+// groundLEFacts adds the inverse/length facts of u64le/u32le for every application in a
+// skolemised goal whose argument no longer contains a bound variable (applications built under
+// a quantifier get no fact when they are built; skolemisation makes them ground).
+func (c *Ctx) groundLEFacts(t *Term, seen map[*Term]bool) {
+	if t == nil || seen[t] {
+		return
+	}
+	seen[t] = true
+	if t.Binder != "" {
+		return
+	}
+	if (t.Op == "u64le" || t.Op == "u32le") && len(t.Args) == 1 && !t.Args[0].Bound {
+		w := 64
+		if t.Op == "u32le" {
+			w = 32
+		}
+		key := "lefact:" + t.String()
+		if c.counters[key] == 0 {
+			c.counters[key] = 1
+			c.assume(TTrue, Eq(App(t.Op+"_inv", SBV(w), t), t.Args[0]))
+			c.assume(TTrue, Eq(App("blen", SBV(64), t), BVInt(int64(w/8), 64)))
+		}
+	}
+	for _, a := range t.Args {
+		c.groundLEFacts(a, seen)
+	}
 }
 
 // splitGoal turns A => (B and C) / (B and C) into separate goals (smaller queries discharge
